@@ -1246,8 +1246,14 @@ struct Extractor {
                   if (FD->isMutable())
                     J.attribute("mutable", true);
                   J.attribute("access", getAccessSpelling(FD->getAccess()));
-                  if (FD->hasInClassInitializer())
+                  if (FD->hasInClassInitializer()) {
                     J.attribute("hasinit", true);
+                    if (const Expr *IE = FD->getInClassInitializer()) {
+                      J.attributeBegin("init");
+                      emitExpr(J, IE);
+                      J.attributeEnd();
+                    }
+                  }
                 });
               }
               // static data members
